@@ -61,7 +61,7 @@ Spec == Init /\ [][Next]_vars
 Laws ==
     /\ (kind = "lag" /\ a = 0 /\ b = NULL) => LenPreserved(s) /\ PrefixLaw(s)
     /\ kind = "lag" => LagHomogeneous(s, a, b)
-    /\ (kind = "fill" /\ a = NULL) => FillLaws(s) /\ FillRefines(s)
+    /\ (kind = "fill" /\ a = NULL) => FillLaws(s) /\ FillRefines(s) /\ DropNoneLaws(s)
     /\ (kind = "clip" /\ a = NULL /\ b = NULL) => ClipLaws(s)
     /\ kind = "uniq" => UniqRefines(s)
     /\ (kind = "cut" /\ b = 0 /\ c /\ d) => UniqueBin(a) /\ OpenBoundsTotal(a) /\ ErrorOnlyOutside(a)
@@ -78,7 +78,8 @@ EmitMap ==
              [op |-> "fill", s |-> s, dflt |-> a,
               ffill |-> DefFFill(s, a, IsNull), bfill |-> DefBFill(s, a, IsNull),
               ffill0 |-> DefFFill(s, a, IsZero), bfill0 |-> DefBFill(s, a, IsZero),
-              fill7 |-> DefFill(s, 7, IsNull), fill0 |-> DefFill(s, 7, IsZero), abs |-> DefAbs(s)]
+              fill7 |-> DefFill(s, 7, IsNull), fill0 |-> DefFill(s, 7, IsZero), abs |-> DefAbs(s),
+              dropped |-> DefDropNone(s)]
         [] kind = "clip" ->
              [op |-> "clip", s |-> s, lo |-> a, hi |-> b, clip |-> DefClip(s, a, b)]
         [] kind = "uniq" ->
